@@ -1,5 +1,5 @@
 import hv
-from hv import runner, gen, e3, e3mon
+from hv import runner, gen, e3, e3mon, e2b
 from hv.props import _common
 
 PID = 'C01'
@@ -11,12 +11,16 @@ def run(tier):
                      'permutation, executed on the real Solver (E2a); plus every return within d deviations of the base '
                      'returns of 2021-2023 (E3 prompt tree; quick d<=1 on 5 bases/year, thorough d<=2 on all); '
                      'distinct = outcome classes observed per engine/base')
+    e2b.explore_into(run, tier, ('verdict', 'valueless-unnamed', 'undemanded-value'), PID)
     gen.explore(run, PID, tier)
     e3.explore_all(run, PID, tier)
     return run.finish()
 
 
 def replay(case):
+    if case.get('engine') == 'e2b':
+        out, errs = e2b.replay(e2b.UNIVERSES[case['universe']], case['script'], case['order'])
+        return (not errs), (str(errs[:1]) if errs else f'passes ({out})')
     if case.get('engine') == 'e3':
         return _common.e3_replay(PID, case)
     return _common.gen_replay(PID)(case)
